@@ -7,6 +7,7 @@ import (
 	"crypto/x509"
 	"encoding/pem"
 	"errors"
+	"fmt"
 	"github.com/rs/zerolog/log"
 	"github.com/theparanoids/ysshra/agent/utils"
 	"io"
@@ -220,7 +221,7 @@ func ServeAgent(agent YubiAgent, c io.ReadWriter) error {
 			AgentMessageRequestV1Identities, AgentMessageRequestIdentities:
 
 			forwarder := newForwarder(req, c)
-			err = sshagent.ServeAgent(agent, forwarder)
+			err = serveStandardRequest(agent, forwarder)
 			if err != nil && err != io.EOF {
 				return err
 			}
@@ -237,4 +238,16 @@ func ServeAgent(agent YubiAgent, c io.ReadWriter) error {
 			}
 		}
 	}
+}
+
+// serveStandardRequest replays one standard request into the ssh agent server. The library panics
+// on some malformed requests (e.g. a truncated lifetime constraint); such a request ends this
+// connection with an error instead of crashing the whole agent process.
+func serveStandardRequest(agent sshagent.Agent, f forwarder) (err error) {
+	defer func() {
+		if r := recover(); r != nil {
+			err = fmt.Errorf("yubiagent: malformed request: %v", r)
+		}
+	}()
+	return sshagent.ServeAgent(agent, f)
 }
